@@ -345,6 +345,45 @@ pub fn run(ctx: &Ctx) -> i32 {
                 ev.sample(J::obj(vec![("dfa", d.describe()), ("fsts", J::s("all subsets of {a,b}^<=2 and sampled subsets of {a,b}^<=3")), ("bounds", J::A(bounds.iter().map(|b| J::bytes(b)).collect()))]));
             }
         }
+        // wide nodes (fan-out 33..256, i.e. indexed lookups during seek) x random DFAs over all byte classes x bounds
+        // that diverge at the wide node
+        for (wi, &fo) in [33usize, 64, 255, 256].iter().enumerate() {
+            for depth in 0..2usize {
+                let idx = wi * 2 + depth;
+                if idx % n != shard {
+                    continue;
+                }
+                let mut r = Rng::new(ctx.seed, 0x4_31de + idx as u64);
+                let keys = gen::fanout_keys(fo, depth, idx % 2 == 0, true, &mut r);
+                let kv = gen::assign(keys, [1usize, 5][idx % 2], &mut r);
+                let bytes = build::build(Front::MapInsert, &kv).expect("build");
+                let prefix: Vec<u8> = kv.iter().find(|(k, _)| k.len() > depth).map(|(k, _)| k[..depth].to_vec()).unwrap_or_default();
+                let mut wb: Vec<Vec<u8>> = vec![vec![], prefix.clone()];
+                for b in [0x00u8, 0x01, 0x80, 0xfe, 0xff, kv[kv.len() / 2].0.get(depth).cloned().unwrap_or(7), kv[kv.len() / 3].0.get(depth).cloned().unwrap_or(9).wrapping_add(1)].iter() {
+                    let mut x = prefix.clone();
+                    x.push(*b);
+                    wb.push(x.clone());
+                    x.push(b'x');
+                    wb.push(x);
+                }
+                wb.sort();
+                wb.dedup();
+                let sigma: Vec<u8> = (0..=255u8).step_by(3).collect();
+                for di in 0..ctx.tier.pick(12, 60) {
+                    let d = Dfa::random(&mut r, 4, &sigma).weaken_randomly(&mut r);
+                    let qs = queries(&wb, false, &mut r);
+                    let before = ev.evaluations;
+                    let mut bad = 0;
+                    for (qi, (lo, hi)) in qs.iter().enumerate() {
+                        if bad < 2 && !dfa_query(&bytes, &kv, &d, lo, hi, di + qi, ev, &mut hooks) {
+                            bad += 1;
+                        }
+                    }
+                    ev.distinct_extra += ev.evaluations - before;
+                }
+                ev.count("fsts:wide-nodes");
+            }
+        }
         // shipped automata and combinators on a corpus and on small sets
         let exprs = spec_exprs(&mut Rng::new(ctx.seed, 0xE4), ctx.tier.pick(120, 600));
         let words = gen::corpus("words-10000");
@@ -433,7 +472,7 @@ pub fn run(ctx: &Ctx) -> i32 {
         ev,
         Spec {
             level: "exploration",
-            rule: "one evaluation = one (automaton, FST, bounds) query: output keys/values/order compared with {k in model : in range and the independently run DFA accepts k}, reported states compared with the DFA run, every stack frame compared with run(dfa, key_buffer[..depth]) after construction and after every next() (hook H3; a breach is attached as diagnosis to an output violation and otherwise only recorded); automata: ALL DFAs with <=2 states over 2 byte classes x ALL sound hint assignments, sampled 3-state DFAs and random DFAs <=8 states/2-4 classes with randomly weakened hints (hint-independence is decided by the hint-free oracle), shipped automata/combinators to depth 2 incl. Levenshtein (ASCII) against brute-force language semantics, regex-automata dense/sparse DFAs as fst-bin builds them; FSTs: all subsets of {a,b}^<=2, sampled subsets of {a,b}^<=3, words-10000; non-trivial = every query; distinct = (automaton, FST, query) triples, distinct by construction",
+            rule: "one evaluation = one (automaton, FST, bounds) query: output keys/values/order compared with {k in model : in range and the independently run DFA accepts k}, reported states compared with the DFA run, every stack frame compared with run(dfa, key_buffer[..depth]) after construction and after every next() (hook H3; a breach is attached as diagnosis to an output violation and otherwise only recorded); automata: ALL DFAs with <=2 states over 2 byte classes x ALL sound hint assignments, sampled 3-state DFAs and random DFAs <=8 states/2-4 classes with randomly weakened hints (hint-independence is decided by the hint-free oracle), shipped automata/combinators to depth 2 incl. Levenshtein (ASCII) against brute-force language semantics, regex-automata dense/sparse DFAs as fst-bin builds them; FSTs: all subsets of {a,b}^<=2, sampled subsets of {a,b}^<=3, nodes of fan-out 33/64/255/256 with bounds diverging at the wide node, words-10000; non-trivial = every query; distinct = (automaton, FST, query) triples, distinct by construction",
             assumptions: vec!["generated automata never implement accept_eof (outside the contract) and their hints are sound by construction (exact sets computed by reachability)".into()],
             floors: vec![
                 ("cov:dfas-with-dead-states", 10),
